@@ -278,6 +278,16 @@ example : (applyUpdateTop ⟨fun _ _ _ => none, fun _ => none, fun _ => none⟩ 
     (.dict [("_multi_update", .list [.int 5, .dict [("_updater", .str "set"), ("_value", .int 10)], .int 1])])).map
       (fun r => r.2.getValue []) = .ok (.int 11) := by rfl
 
+/-- a falsy element of the list is an update like any other: set 5, then set 0 leaves 0; +3, +0, +4 adds 7 -/
+example : (applyUpdateTop ⟨fun _ _ _ => none, fun _ => none, fun _ => none⟩ {}
+    (.mk { value := .own (.str "init"), updater := some (.fn .set), leaf := true } [])
+    (.dict [("_multi_update", .list [.int 5, .int 0])])).map
+      (fun r => r.2.getValue []) = .ok (.int 0) := by rfl
+example : (applyUpdateTop ⟨fun _ _ _ => none, fun _ => none, fun _ => none⟩ {}
+    (.mk { value := .own (.int 1), updater := some .dflt, leaf := true } [])
+    (.dict [("_multi_update", .list [.int 3, .int 0, .int 4])])).map
+      (fun r => r.2.getValue []) = .ok (.int 8) := by rfl
+
 /-- **Frame**, for a tree of variables: a node the update does not mention (see `Unmentioned`:
 along the node's path every entry for the next key again does not mention the rest; in particular
 the key is simply absent) is afterwards the very same node — value, schema and subtree. -/
